@@ -38,6 +38,8 @@ type c16Workload struct {
 	in    *c16Inst
 	rng   *Rng
 	thor  bool
+	// 0 = the replayed workload; 1 = warm-up (twins flipped, reversed creation order, fixture blocks only)
+	variant int
 	price map[uint64]uint64 // asset id -> current oracle price (TWA)
 	// liquidity
 	pairs []c16Pair
@@ -116,11 +118,17 @@ func (w *c16Workload) block(b int) {
 		w.fixtureAssets()
 		w.fixtureLiquidity()
 	case 1:
+		if w.variant == 0 {
+			w.fixtureLiquidity2()
+		}
 		w.fixtureVaultLocker()
 	case 2:
 		w.fixtureLend()
 	default:
 		w.oracleStep(b)
+		if b == 3 {
+			w.twinPositions()
+		}
 		w.liquidityStep(b)
 		w.vaultLockerStep(b)
 		w.lendStep(b)
@@ -161,47 +169,108 @@ func (w *c16Workload) fixtureAssets() {
 	}
 }
 
+// The liquidity fixture is a list of pool specifications. It contains TWINS: pools that agree in everything a
+// computation could be keyed on except one parameter (single-sided ranged pools with equal deposits and equal minPrice
+// but different maxPrice on different pairs; ranged pools differing only in minPrice; only in the deposit). A memo or
+// cache keyed on a subset of the arguments is hit by them.
+//   variant 0 (the replayed workload): block 0 creates the pairs, the single-sided pool S1 (pool 1, pair 1), the basic
+//     pools and crossing orders on pair 1, so that the very first ranged-pool evaluations of an instance matter for
+//     balances; block 1 creates the other ranged pools, the twin S2 of S1 last (highest pool id on the last pair).
+//   variant 1 (the WARM-UP run between instance A and instance B): the pairs in reverse order and every twin flipped,
+//     the flipped twin of S1 created LAST on the LAST pair and never traded — so the last ranged-pool evaluation of the
+//     warm-up and the first one of instance B agree in all but one argument. No orders.
+type c16PoolSpec struct {
+	pair             int // index into w.pairs
+	base, quote      int64
+	lo, hi, init     string // "" = basic pool
+}
+
+func (w *c16Workload) createPools(specs []c16PoolSpec) {
+	in := w.in
+	creator := 0
+	for _, sp := range specs {
+		p := w.pairs[sp.pair]
+		coins := sdk.NewCoins()
+		if sp.base > 0 {
+			coins = coins.Add(sdk.NewCoin(p.base, sdk.NewInt(sp.base)))
+		}
+		if sp.quote > 0 {
+			coins = coins.Add(sdk.NewCoin(p.quote, sdk.NewInt(sp.quote)))
+		}
+		var ok bool
+		if sp.lo == "" {
+			ok = in.tx(creator, "liquidity.create-pool", liquiditytypes.NewMsgCreatePool(c16AppSwap, w.addr(creator), p.id, coins))
+		} else {
+			ok = in.tx(creator, "liquidity.create-ranged-pool", liquiditytypes.NewMsgCreateRangedPool(c16AppSwap, w.addr(creator), p.id, coins, c16D(sp.lo), c16D(sp.hi), c16D(sp.init)))
+		}
+		if !ok {
+			in.t.Fatalf("c16: create pool %+v failed", sp)
+		}
+	}
+	// pool ids as stored
+	for i := range w.pairs {
+		w.pairs[i].pools = nil
+	}
+	for _, pool := range in.app.LiquidityKeeper.GetAllPools(in.ctx, c16AppSwap) {
+		for i := range w.pairs {
+			if w.pairs[i].id == pool.PairId {
+				w.pairs[i].pools = append(w.pairs[i].pools, pool.Id)
+			}
+		}
+	}
+}
+
+const c16TwinDeposit = 500_000_000
+
 func (w *c16Workload) fixtureLiquidity() {
 	in := w.in
 	creator := 0
-	mk := func(base, quote string, mid string) {
-		ok := in.tx(creator, "liquidity.create-pair", liquiditytypes.NewMsgCreatePair(c16AppSwap, w.addr(creator), base, quote))
-		if !ok {
-			in.t.Fatalf("c16: create pair %s/%s failed", base, quote)
+	type pairSpec struct{ base, quote, mid string }
+	pairSpecs := []pairSpec{{"ucmdx", "ucmst", "2.0"}, {"uatom", "ucmst", "10.0"}, {"uosmo", "ucmst", "2.0"}}
+	if w.variant == 1 {
+		pairSpecs = []pairSpec{pairSpecs[2], pairSpecs[1], pairSpecs[0]}
+	}
+	for _, ps := range pairSpecs {
+		if !in.tx(creator, "liquidity.create-pair", liquiditytypes.NewMsgCreatePair(c16AppSwap, w.addr(creator), ps.base, ps.quote)) {
+			in.t.Fatalf("c16: create pair %s/%s failed", ps.base, ps.quote)
 		}
-		w.pairs = append(w.pairs, c16Pair{id: uint64(len(w.pairs) + 1), base: base, quote: quote, mid: c16D(mid)})
+		w.pairs = append(w.pairs, c16Pair{id: uint64(len(w.pairs) + 1), base: ps.base, quote: ps.quote, mid: c16D(ps.mid)})
 	}
-	mk("ucmdx", "ucmst", "2.0")
-	mk("uatom", "ucmst", "10.0")
-	mk("uosmo", "ucmdx", "0.25")
-	coins := func(p c16Pair, baseAmt, quoteAmt int64) sdk.Coins {
-		return sdk.NewCoins(sdk.NewCoin(p.base, sdk.NewInt(baseAmt)), sdk.NewCoin(p.quote, sdk.NewInt(quoteAmt)))
+	if w.variant == 1 {
+		// warm-up: everything at once, twins flipped (maxPrice 2.5 <-> 3.0, minPrice 1.5 <-> 1.6), S1's twin last on the last pair
+		w.createPools([]c16PoolSpec{
+			{pair: 0, base: 800_000_000, quote: 1_600_000_000},
+			{pair: 1, base: 100_000_000, quote: 1_000_000_000},
+			{pair: 2, base: 500_000_000, quote: 1_000_000_000},
+			{pair: 0, base: c16TwinDeposit, lo: "2.0", hi: "2.5", init: "2.0"},
+			{pair: 1, base: 50_000_000, quote: 500_000_000, lo: "8.0", hi: "12.0", init: "10.0"},
+			{pair: 2, base: 300_000_000, quote: 600_000_000, lo: "1.6", hi: "2.5", init: "2.0"},
+			{pair: 2, base: c16TwinDeposit, lo: "2.0", hi: "3.0", init: "2.0"},
+		})
+		return
 	}
-	nextPool := uint64(1)
-	basic := func(pi int, baseAmt, quoteAmt int64) {
-		p := &w.pairs[pi]
-		if in.tx(creator, "liquidity.create-pool", liquiditytypes.NewMsgCreatePool(c16AppSwap, w.addr(creator), p.id, coins(*p, baseAmt, quoteAmt))) {
-			p.pools = append(p.pools, nextPool)
-			nextPool++
-		} else {
-			in.t.Fatalf("c16: create pool failed")
-		}
+	w.createPools([]c16PoolSpec{
+		{pair: 0, base: c16TwinDeposit, lo: "2.0", hi: "2.5", init: "2.0"}, // S1: single-sided (initial price = min price), pool 1
+		{pair: 0, base: 500_000_000, quote: 1_000_000_000},
+		{pair: 1, base: 100_000_000, quote: 1_000_000_000},
+		{pair: 2, base: 800_000_000, quote: 1_600_000_000},
+	})
+	// buyers above 2.0 on pair 1 already in this block: S1 sells into them in the first batch
+	for i := 0; i < 4; i++ {
+		w.limitOrder(1+i, w.pairs[0], true, w.tickPrice(w.pairs[0], 2+2*i), sdk.NewInt(int64(40_000_000+1_000_000*i)), 30*time.Second)
 	}
-	ranged := func(pi int, baseAmt, quoteAmt int64, lo, hi, init string) {
-		p := &w.pairs[pi]
-		if in.tx(creator, "liquidity.create-ranged-pool", liquiditytypes.NewMsgCreateRangedPool(c16AppSwap, w.addr(creator), p.id, coins(*p, baseAmt, quoteAmt), c16D(lo), c16D(hi), c16D(init))) {
-			p.pools = append(p.pools, nextPool)
-			nextPool++
-		} else {
-			in.t.Fatalf("c16: create ranged pool failed")
-		}
-	}
-	basic(0, 500_000_000, 1_000_000_000)
-	ranged(0, 300_000_000, 600_000_000, "1.5", "2.5", "2.0")
-	ranged(0, 200_000_000, 400_000_000, "1.8", "2.3", "2.0")
-	basic(1, 100_000_000, 1_000_000_000)
-	ranged(1, 50_000_000, 500_000_000, "8.0", "12.0", "10.0")
-	basic(2, 800_000_000, 200_000_000)
+}
+
+// the other ranged pools (block 1 of the replayed workload)
+func (w *c16Workload) fixtureLiquidity2() {
+	w.createPools([]c16PoolSpec{
+		{pair: 0, base: 300_000_000, quote: 600_000_000, lo: "1.5", hi: "2.5", init: "2.0"},
+		{pair: 0, base: 200_000_000, quote: 400_000_000, lo: "1.8", hi: "2.3", init: "2.0"},
+		{pair: 1, base: 50_000_000, quote: 500_000_000, lo: "8.0", hi: "12.0", init: "10.0"},
+		{pair: 2, base: 300_000_000, quote: 600_000_000, lo: "1.6", hi: "2.5", init: "2.0"},  // twin of pool (pair 1, 1.5..2.5): minPrice differs
+		{pair: 2, base: 300_000_001, quote: 600_000_000, lo: "1.6", hi: "2.5", init: "2.0"},  // twin of the previous: deposit differs by one unit
+		{pair: 2, base: c16TwinDeposit, lo: "2.0", hi: "3.0", init: "2.0"},                   // S2: twin of S1, maxPrice differs; last pool of the last pair
+	})
 }
 
 func (w *c16Workload) fixtureVaultLocker() {
@@ -451,6 +520,33 @@ func (w *c16Workload) liquidityStep(b int) {
 		msg.Kind = &rewardstypes.MsgCreateGauge_LiquidityMetaData{LiquidityMetaData: &rewardstypes.LiquidtyGaugeMetaData{PoolId: poolID, IsMasterPool: master, ChildPoolIds: child}}
 		in.tx(who, "rewards.create-gauge", msg)
 	}
+}
+
+// twinPositions: pairs of positions that agree in all but one parameter, opened in the same block and interleaved with
+// the other operations (vaults: equal collateral, different debt; lockers: equal deposit, different owner; lend: equal
+// collateral, different borrowed amount; limit orders: equal price and amount on two pairs).
+func (w *c16Workload) twinPositions() {
+	in := w.in
+	in.tx(1, "vault.create", vaulttypes.NewMsgCreateRequest(w.addr(1), c16AppHarbor, 1, sdk.NewInt(50_000_000), sdk.NewInt(40_000_000)))
+	in.tx(3, "locker.create", lockertypes.NewMsgCreateLockerRequest(w.addr(3).String(), sdk.NewInt(7_000_000), 2, c16AppHarbor))
+	in.tx(2, "vault.create", vaulttypes.NewMsgCreateRequest(w.addr(2), c16AppHarbor, 1, sdk.NewInt(50_000_000), sdk.NewInt(40_000_001)))
+	in.tx(4, "locker.create", lockertypes.NewMsgCreateLockerRequest(w.addr(4).String(), sdk.NewInt(7_000_000), 2, c16AppHarbor))
+	aATOM, aCMDX := w.assetID["uatom"], w.assetID["ucmdx"]
+	for i, who := range []int{5, 6} {
+		from := w.addr(who).String()
+		in.tx(who, "lend.lend", lendtypes.NewMsgLend(from, aATOM, sdk.NewCoin("uatom", sdk.NewInt(100_000_000)), 1, c16AppLend))
+		if lendID, ok := in.app.LendKeeper.GetLendIDForAssetIDPoolID(in.ctx, from, aATOM, 1); ok {
+			if pairID := w.lendPair(aATOM, aCMDX, 1); pairID != 0 {
+				in.tx(who, "lend.borrow", lendtypes.NewMsgBorrow(from, lendID, pairID, false, sdk.NewCoin("ucatom", sdk.NewInt(20_000_000)), sdk.NewCoin("ucmdx", sdk.NewInt(int64(30_000_000+i)))))
+			}
+		}
+	}
+	for _, pi := range []int{0, 2} {
+		p := w.pairs[pi]
+		w.limitOrder(7, p, true, w.tickPrice(p, 4), sdk.NewInt(25_000_000), 30*time.Second)
+		w.limitOrder(7, p, false, w.tickPrice(p, -4), sdk.NewInt(25_000_000), 30*time.Second)
+	}
+	in.stats["twins"]++
 }
 
 func (w *c16Workload) vaultLockerStep(b int) {
